@@ -1,5 +1,8 @@
 """C16 - blind alignment restores a frequency-consistent class order."""
 import itertools
+import json
+import os
+import time
 
 import numpy as np
 
@@ -9,7 +12,11 @@ from pbv.spec import cells, shape_of
 META = {
     'level': 'exploration',
     'min_obligations': 1,
-    'explanation': 'DHTV alignment plan: exhaustive enumeration of every configuration with STFT size <= 64 (coverage for '
+    'explanation': 'DHTV alignment plan, UNBOUNDED: the AST of the real alignment_plan getter is interpreted over mathematical integers and '
+                   'symbolic-length lists on every run (pbv/intvc.py) and z3 discharges, for every stft size / start / width / shift with '
+                   'shift <= width: every bin is covered, every segment lies inside the band, iteration counts, ValueError exactly when '
+                   'start + width exceeds the band, no IndexError (interleave by an assumed permutation contract, checked bounded). '
+                   'Also: exhaustive enumeration of every configuration with STFT size <= 64 (coverage for '
                    'shift <= width, documented ValueError, 2/3 overlap for shift <= width/3 and the two shipped defaults); '
                    'net-reordering clause: calculate_mapping of both aligners equals an independent loop-level transcription '
                    'of the documented procedure on continuous random masks (bounded); restoration on jittered near-orthogonal '
@@ -297,9 +304,284 @@ def restoration_bounded_instance():
     return Instance('C16', PA + 'calculate_mapping', 'bounded-restoration', make, call, ensures, mode='bounded', bounded_n=150, frame=False)
 
 
+# ----------------------------------------------------------------------------- unbounded: alignment_plan for EVERY stft size
+# The AST of the real property getter is interpreted over mathematical integers and symbolic-length lists (pbv/intvc.py); the
+# verification conditions are quantifier-free non-linear integer arithmetic, discharged by z3.
+PLAN_FIELDS = ('stft_size', 'segment_start', 'segment_width', 'segment_shift', 'main_iterations', 'sub_iterations')
+
+
+def _native_plan(fields):
+    from pb_bss import permutation_alignment as pa
+    al = pa.DHTVPermutationAlignment(**{k: int(fields[k]) for k in PLAN_FIELDS})
+    try:
+        return 'ok', al.alignment_plan
+    except Exception as e:  # noqa
+        return 'exc', e
+
+
+def _native_plan_clauses(fields, f=None):
+    """The same clauses evaluated on the real function at one configuration: list of failed clause names."""
+    F = int(fields['stft_size']) // 2 + 1
+    start, width = int(fields['segment_start']), int(fields['segment_width'])
+    kind, plan = _native_plan(fields)
+    failed = []
+    if kind == 'exc':
+        if not (isinstance(plan, ValueError) and start + width > F):
+            failed.append('raises-only-the-documented-ValueError')
+        return failed, repr(plan)
+    if start + width > F:
+        failed.append('documented-ValueError-raised')
+    cov = np.zeros(F, dtype=bool)
+    for i, seg in enumerate(plan):
+        it, a, b = seg
+        if not (0 <= a < b <= F):
+            failed.append('segments-inside-the-band')
+        cov[max(a, 0):max(b, 0)] = True
+        if it != (fields['main_iterations'] if i == 0 else fields['sub_iterations']):
+            failed.append('iteration-counts')
+    if not cov.all():
+        failed.append('every-bin-covered')
+    return sorted(set(failed)), plan
+
+
+def plan_vc_run(inst, tier, seed, replay_dir):
+    import z3
+    from pbv import intvc as V
+    from pb_bss import permutation_alignment as pa
+    t0 = time.time()
+    budget_ms = 60000 if tier == 'thorough' else 20000
+    rep = {'key': inst.key, 'prop': inst.prop, 'func': inst.func, 'name': inst.name, 'obligations': [], 'paths': 0,
+           'infeasible': 0, 'undecided': [], 'violations': [], 'assumptions': [], 'crosscheck': {'samples': 0, 'compared': 0, 'mismatch': []},
+           'vacuity': {'valid_samples': 1, 'defs_checked': 0, 'defs_bad': []}, 'solver_time': 0.0, 'backends': {},
+           'sample_obligation': None, 'error': None, 'tags': list(inst.tags)}
+
+    def undecided_all(reason):
+        rep['obligations'].append({'name': 'vc-generation', 'status': 'undecided', 'time': 0.0, 'backend': 'intvc', 'kind': 'ensures', 'nassert': 0})
+        rep['undecided'].append({'obligation': 'vc-generation', 'reason': reason[:300]})
+        rep['wall'] = round(time.time() - t0, 3)
+        return rep
+
+    ctx = V.Ctx()
+    fld = {k: ctx.field(k) for k in PLAN_FIELDS}
+    stft, start, width, shift = fld['stft_size'], fld['segment_start'], fld['segment_width'], fld['segment_shift']
+    # the quantifier of the property: every configuration with shift <= width (sizes are natural numbers, segments non-empty)
+    pre = [stft >= 0, start >= 0, width >= 1, shift >= 1, shift <= width]
+
+    def feasible(path):
+        r, _, dt = V.solve(pre + ctx.side + list(path), 5000)
+        rep['solver_time'] += dt
+        return r != 'unsat'
+
+    def interleave_contract(interp, args):
+        if not all(V._is_list_value(a) for a in args):
+            raise V.Unsupported('interleave of non-lists')
+        parts = []
+        for a in args:
+            parts += a.parts if isinstance(a, V.Bag) else [a]
+        return V.Bag(parts, ordered=False)
+
+    callees = {'interleave': {'apply': interleave_contract,
+                              'assumption': 'interleave(*lists) yields exactly the elements of its arguments (a permutation of their concatenation): '
+                                            'assumed in the plan proof, checked natively for all lists of length <= 5 (bounded) in the same instance'}}
+    try:
+        fn, src = V.function_ast(pa.DHTVPermutationAlignment.alignment_plan.fget)
+        interp = V.Interp(ctx, pre, callees, feasible)
+        rest = interp.run(fn.body, {}, [])
+        if rest:
+            raise V.Unsupported('a path falls off the end of the function')
+    except V.Unsupported as e:
+        return undecided_all('alignment_plan left the integer/list subset of pbv.intvc: %s' % e)
+    rep['assumptions'] = sorted(ctx.assumed) + [
+        'pbv.intvc: Python integers are mathematical; floor division and range() encoded with explicit quotient / remainder witnesses; '
+        'list displays in a comprehension do not alias (syntactic check); the docstring and the f-string of the exception message are dropped']
+    rep['paths'] = len(interp.results)
+    F = stft / 2 + 1                      # z3 integer division by the positive literal 2 is floor division
+    oblig = []                            # (name, hypotheses, goal, extra model vars)
+    for name, path, goal in ctx.oblig:
+        oblig.append((name, list(path), goal, []))
+    n_ret = 0
+    for pi, (path, (kind, val)) in enumerate(interp.results):
+        tag = 'path%d' % pi
+        if kind == 'raise':
+            oblig.append(('raises-only-the-documented-ValueError[%s]' % tag, path, z3.BoolVal(val == 'ValueError'), []))
+            oblig.append(('raises-only-when-start+width-exceeds-the-band[%s]' % tag, path, start + width > F, []))
+            continue
+        n_ret += 1
+        oblig.append(('documented-ValueError-raised[%s]' % tag, path, start + width <= F, []))
+        if not isinstance(val, V.Bag) or not val.parts or not isinstance(val.parts[0], list) or len(val.parts[0]) != 1:
+            return undecided_all('the returned value is not [main segment] + <segments>')
+        f = z3.Int('f')
+        cover = []
+        side = []
+        for part_i, part in enumerate(val.parts):
+            if isinstance(part, list):
+                for seg in part:
+                    if not (isinstance(seg, list) and len(seg) == 3):
+                        return undecided_all('a segment is not a [iterations, start, end] triple')
+                    cover.append(z3.And(seg[1] <= f, f < seg[2]))
+                    first = part_i == 0
+                    oblig.append(('segments-inside-the-band[%s,%s]' % (tag, 'main' if first else 'part%d' % part_i), path,
+                                  z3.And(0 <= seg[1], seg[1] < seg[2], seg[2] <= F), []))
+                    oblig.append(('iteration-counts[%s,%s]' % (tag, 'main' if first else 'part%d' % part_i), path,
+                                  seg[0] == (fld['main_iterations'] if first else fld['sub_iterations']), []))
+            elif isinstance(part, V.GenList):
+                if part.arity != 3:
+                    return undecided_all('a generated segment is not a triple')
+                # ghost witnesses: the element whose generator value is nearest at or below f, the first and the last element
+                q, r = ctx.new('w'), ctx.new('wr')
+                mag = part.step if part.sign > 0 else -part.step
+                if part.sign > 0:
+                    side += [f - part.a0 == mag * q + r, r >= 0, r < mag]
+                else:
+                    side += [part.a0 - f + mag - 1 == mag * q + r, r >= 0, r < mag]
+                for cand in (q, z3.IntVal(0), part.n - 1):
+                    seg = part.elem(cand)
+                    cover.append(z3.And(cand >= 0, cand < part.n, seg[1] <= f, f < seg[2]))
+                i = z3.Int('i%d' % part_i)
+                seg = part.elem(i)
+                hyp_i = [i >= 0, i < part.n]
+                oblig.append(('segments-inside-the-band[%s,part%d]' % (tag, part_i), path + hyp_i,
+                              z3.And(0 <= seg[1], seg[1] < seg[2], seg[2] <= F), [('i', i)]))
+                oblig.append(('iteration-counts[%s,part%d]' % (tag, part_i), path + hyp_i, seg[0] == fld['sub_iterations'], [('i', i)]))
+            else:
+                return undecided_all('unexpected part of the plan')
+        oblig.append(('every-bin-covered[%s]' % tag, path + [f >= 0, f < F] + side, z3.Or(cover), [('f', f)]))
+        # ---- cross-check of the interpretation against CPython on this path (guard, not an obligation)
+        for k in range(6):
+            rng = np.random.RandomState(seed * 131 + pi * 17 + k)
+            hint = [stft == int(rng.randint(2, 200)), shift == int(rng.randint(1, 12))] if k % 2 == 0 else [stft <= 40 + 20 * k]
+            r, m, dt = V.solve(pre + ctx.side + path + hint, 5000)
+            if r != 'sat':
+                r, m, dt = V.solve(pre + ctx.side + path, 5000)
+            if r != 'sat':
+                continue
+            conc = V.model_fields(ctx, m)
+            sym_plan = V.eval_value(m, val)
+            kind_n, nat = _native_plan(conc)
+            rep['crosscheck']['samples'] += 1
+            if kind_n != 'ok' or sorted(map(list, nat)) != sorted(sym_plan) or list(nat[0]) != sym_plan[0]:
+                rep['crosscheck']['mismatch'].append('alignment_plan at %s: CPython %r, interpreted %r' % (conc, nat, sym_plan))
+            else:
+                rep['crosscheck']['compared'] += len(sym_plan)
+    if n_ret == 0:
+        return undecided_all('no returning path is feasible under the precondition')
+    # ---- the assumed callee contract, bounded
+    tok = 0
+    for la in range(6):
+        for lb in range(6):
+            a = [('a', i) for i in range(la)]
+            b = [('b', i) for i in range(lb)]
+            got = list(pa.interleave(a, b))
+            tok += 1
+            if sorted(got) != sorted(a + b):
+                rep['obligations'].append({'name': 'callee-contract:interleave-keeps-every-element', 'status': 'failed', 'time': 0.0,
+                                           'backend': 'native', 'kind': 'ensures', 'nassert': 1})
+                rep['violations'].append(_plan_violation(inst, replay_dir, 'callee-contract:interleave-keeps-every-element',
+                                                         {'lists': [la, lb]}, None, 'interleave(%r, %r) = %r' % (a, b, got), True))
+                rep['wall'] = round(time.time() - t0, 3)
+                return rep
+    # ---- discharge
+    for name, hyps, goal, extra in oblig:
+        q = pre + ctx.side + list(hyps) + [z3.Not(goal)]
+        r, m, dt = V.solve(q, budget_ms)
+        rep['solver_time'] += dt
+        ob = {'name': name, 'status': None, 'time': round(dt, 3), 'backend': 'z3-nia', 'kind': 'ensures', 'nassert': len(q)}
+        if r == 'unsat':
+            ob['status'] = 'discharged'
+            rep['backends']['z3-nia(intvc)'] = rep['backends'].get('z3-nia(intvc)', 0) + 1
+            if rep['sample_obligation'] is None and name.startswith('every-bin-covered'):
+                s = z3.Solver()
+                s.add(*q)
+                rep['sample_obligation'] = {'instance': inst.key, 'obligation': name, 'assertions': len(q), 'smt2_head': s.to_smt2()[:1500]}
+        elif r == 'sat':
+            conc = V.model_fields(ctx, m, extra)
+            base = name.split('[')[0]
+            failed, nat = _native_plan_clauses(conc, conc.get('f'))
+            confirmed = base in failed or (base.startswith('definedness') and isinstance(nat, str)) \
+                or (base.startswith('raises-only') and isinstance(nat, str) and 'raises-only-the-documented-ValueError' in failed)
+            if not confirmed:
+                # the configuration of the model does not fail natively: look for a small configuration that does
+                found = _search_small_plan_failure(base)
+                if found is not None:
+                    conc, nat, confirmed = found[0], found[1], True
+            if confirmed:
+                ob['status'] = 'failed'
+                s = z3.Solver()
+                s.add(*q)
+                rep['violations'].append(_plan_violation(inst, replay_dir, name, conc, s.to_smt2(), nat, True))
+            else:
+                ob['status'] = 'undecided'
+                rep['undecided'].append({'obligation': name, 'reason': 'counter-model %s does not fail on the real function (encoding gap)' % conc})
+        else:
+            ob['status'] = 'undecided'
+            rep['undecided'].append({'obligation': name, 'reason': 'z3 returned unknown within %d ms' % budget_ms})
+        rep['obligations'].append(ob)
+    # ---- vacuity canary: without shift <= width the coverage clause must be refutable
+    canary = [c for c in oblig if c[0].startswith('every-bin-covered')]
+    refutable = 0
+    for name, hyps, goal, extra in canary:
+        r, m, dt = V.solve([stft >= 0, start >= 0, width >= 1, shift >= 1] + ctx.side + list(hyps) + [z3.Not(goal)], 20000)
+        rep['vacuity']['defs_checked'] += 1
+        refutable += r == 'sat'
+    if canary and not refutable:
+        rep['vacuity']['defs_bad'].append('coverage canary: no coverage clause is refutable without shift <= width (vacuous encoding?)')
+    rep['wall'] = round(time.time() - t0, 3)
+    return rep
+
+
+def _search_small_plan_failure(base):
+    for stft in range(0, 41):
+        F = stft // 2 + 1
+        for start in range(0, F + 1):
+            for width in range(1, F + 2):
+                for shift in range(1, width + 1):
+                    conc = {'stft_size': stft, 'segment_start': start, 'segment_width': width, 'segment_shift': shift,
+                            'main_iterations': 7, 'sub_iterations': 3}
+                    failed, nat = _native_plan_clauses(conc)
+                    if base in failed:
+                        return conc, nat
+    return None
+
+
+def _plan_violation(inst, replay_dir, name, conc, smt2, nat, confirmed):
+    payload = {'property': inst.prop, 'function': inst.func, 'instance': inst.name, 'obligation': name, 'kind': 'intvc',
+               'solver': 'z3-nia', 'inputs': conc, 'native_outcome': repr(nat)[:2000], 'reproduced_by': 'solver model / small-configuration search',
+               'smt2': (smt2 or '')[:200000]}
+    viol = {'obligation': name, 'kind': 'ensures', 'confirmed': confirmed, 'replay': None, 'no_input': not confirmed, 'has_uf': False,
+            'backend': 'z3-nia', 'exception': None, 'engine_origin': False}
+    if replay_dir:
+        os.makedirs(replay_dir, exist_ok=True)
+        fn = os.path.join(replay_dir, 'alignment_plan__%s.json' % ''.join(ch if ch.isalnum() else '_' for ch in name)[:120])
+        with open(fn, 'w') as fh:
+            json.dump(payload, fh, indent=1)
+        viol['replay'] = fn
+    return viol
+
+
+def plan_vc_replay(payload):
+    conc = payload['inputs']
+    if 'lists' in conc:
+        from pb_bss import permutation_alignment as pa
+        a = [('a', i) for i in range(conc['lists'][0])]
+        b = [('b', i) for i in range(conc['lists'][1])]
+        bad = sorted(pa.interleave(a, b)) != sorted(a + b)
+        print('replay: interleave on lists of length %s: %s' % (conc['lists'], 'elements lost' if bad else 'ok'))
+        return bad
+    failed, nat = _native_plan_clauses(conc, conc.get('f'))
+    print('replay of %s on the real alignment_plan at %s' % (payload['obligation'], {k: conc[k] for k in PLAN_FIELDS if k in conc}))
+    print('  plan / outcome: %r' % (nat,))
+    print('  failed clauses: %s' % failed)
+    return bool(failed)
+
+
+def plan_vc_instance():
+    return Instance('C16', PA + 'DHTVPermutationAlignment.alignment_plan', 'unbounded-every-stft-size', None, None, None, mode='custom',
+                    lemma={'run': plan_vc_run, 'replay': plan_vc_replay}, crosscheck=False, frame=False, weight=50, wall=600)
+
+
 def instances(tier):
     th = tier == 'thorough'
-    out = []
+    out = [plan_vc_instance()]
     # exhaustive plan enumeration, split by STFT size ranges so that it runs on several cores
     for lo, hi in ((1, 30), (31, 42), (43, 50), (51, 56), (57, 61), (62, 64)):
         out.append(plan_exhaustive_instance(hi, lo))
